@@ -4,7 +4,7 @@ import subprocess, re, sys, tempfile, os
 TMP = tempfile.mkdtemp()
 HDR = '''From Coq Require Import String.
 From PS Require Import Base GFDefs PackDefs StoreDefs MiscDefs StrDefs LangDefs ApiDefs SpecDefs SpecApi.
-From PS Require Import GFProofs MiscProofs CoinProofs PackProofs PackTheorems StoreProofs SeedProofs ApiLemmas RefineProofs RoundTrip TraceProofs FrameProofs.
+From PS Require Import GFProofs MiscProofs CoinProofs PackProofs PackTheorems StoreProofs SeedProofs ApiLemmas RefineProofs RoundTrip TraceProofs FrameProofs SafetyProofs.
 From PS Require Import StrProofs CTieBase CTieLang CTiePhrase CTiePhraseEv CTieSplit CTieApi CTieDecode CTieEncode CTieLocals CTieInject CTieCmp CTieSearch CTieClosed CodeTheorems CodeMachine.
 From PS.Gen Require Import Consts PrivConsts Langs.
 From PS.Gen Require CFuns CApi.
@@ -23,7 +23,7 @@ def typ(name):
 IMPORTS = '''
 (* ---- the tie to the code: src/polyseed.c as TRANSLATED on this run (Gen/CApi.v) ---- *)
 From Coq Require Import String.
-From PS Require Import Base GFDefs PackDefs StoreDefs MiscDefs StrDefs LangDefs ApiDefs SpecDefs SpecApi GFProofs PackProofs StoreProofs RefineProofs RoundTrip TraceProofs FrameProofs CTieBase CTieLang CTiePhrase CTiePhraseEv CTieSplit CTieApi CTieDecode CTieEncode CTieLocals CTieInject CTieCmp CTieSearch CTieClosed CodeTheorems CodeMachine.
+From PS Require Import Base GFDefs PackDefs StoreDefs MiscDefs StrDefs LangDefs ApiDefs SpecDefs SpecApi GFProofs PackProofs StoreProofs RefineProofs RoundTrip TraceProofs FrameProofs SafetyProofs CTieBase CTieLang CTiePhrase CTiePhraseEv CTieSplit CTieApi CTieDecode CTieEncode CTieLocals CTieInject CTieCmp CTieSearch CTieClosed CodeTheorems CodeMachine.
 From PS.Gen Require Import Consts PrivConsts Langs.
 From PS.Gen Require CFuns.
 From PS.Gen Require CApi.
@@ -71,6 +71,8 @@ PLAN = {
          ('machine_frame_clean','code_frame_clean','ON THE CODE: every automatic object tainted on the exit taken is wiped among the events of the call of the translated code'),
          ('locals','tie_locals','the automatic arrays and structs of every translated API function, as found in the current source, are the objects the wipe accounting knows plus the two public salts: a new temporary breaks this'),
          ('locals_accounted','locals_accounted','each of them maps to an object of the mirror (CTieApi.cobj) or is a salt')],
+ 'C14': [('machine_no_fault','code_no_fault','ON THE CODE: on every well-formed call the translated code terminates within the fuel and does not reach the fault value (it equals the mirror step, which never faults)'),
+         ('machine_status_range','code_status_range','ON THE CODE: the status a constructor of the translated code returns is one of those documented for it')],
  'C20': [('machine_interleaving','code_interleaving','ON THE CODE: for any global order of calls on seeds, the calls on one thread\'s seeds give - in histories of the translated code - what they give when run alone (calls as atomic steps; the static storage is observed by the write-protected segment)')],
  'C19': [('split','tie_str_split','str_split as translated reads plain chars through the signedness parameter; for either setting it computes the mirror split, which does not mention signedness')],
  'C05': [('signatures','tie_ctypes','the C types of the parameters of the translated functions (the coin is `enum polyseed_coin`, an int: every coin below 2048 reaches the xor unchanged), as clang reports them for the current headers')],
